@@ -33,9 +33,13 @@ impl PacketHeader {
             Ok(h) => dec_hdr(old(r).rest()) == Some((h.hv(), dec_hdr(old(r).rest()).unwrap().1))
                 && (*final(r)).rest() == old(r).rest().skip(dec_hdr(old(r).rest()).unwrap().1 as int)
                 && hdr_ok(h.hv()),
-            Err(_) => true }
+            // (provenance only: hdr_err is uninterpreted, see below; nothing is assumed about when a read fails)
+            Err(e) => hdr_err(old(r).rest(), e.k) }
     { unimplemented!() }
 }
+/// PROVENANCE predicate (uninterpreted): reading a packet header from a reader that still held the octets `s` failed with an
+/// io::Error of kind k
+pub uninterp spec fn hdr_err(s: Seq<u8>, k: io::ErrorKind) -> bool;
 
 //@trusted T2 Packet (src/packet/packet_sum.rs) is an opaque value here
 #[verifier::external_body]
